@@ -22,7 +22,8 @@ Driver requests for the container model (C13, C14).
 * `arch-prefix <chk|rel|fix> <seekmax> <hex> <offsets>` → `ok <tokens>`: the outcome class of
     opening `take n` for each `n` of the nat list: `o` | `e` | `p:<site>` | `a:<n>`, `,`-joined.
 -/
-namespace Driver
+namespace Driver.HContainer
+open Driver
 open Ragc.Varint Ragc.Container
 
 def splitOrEmpty (s : String) (sep : String) : List String :=
@@ -143,4 +144,8 @@ def handleContainer : List String → Option String
     some ("ok " ++ joinOr "," (offs.map fun n => classTok (ri.openB (bs.take n))))
   | _ => none
 
+end Driver.HContainer
+
+namespace Driver
+export HContainer (handleContainer)
 end Driver
